@@ -3,7 +3,7 @@ UNITS = {"c02node": dict(pkg="./pkg/controller/multi-ip/node", tags="default_bui
 # candidate findings reported to the lead; until they are entered into known_findings.json
 # (or repaired) their guards are switched on through this variable (see c08Known in
 # zz_verif_c02_engine_test.go). Remove an id here once it is listed or fixed.
-_PENDING = {"VERIF_PENDING_KNOWN": "C02-v4-not-on-v6-eni,C02-rollback-unbinds-existing-v4"}
+_PENDING = {}
 
 _assume = [
     "cloud simulated at the pkg/controller.Interface level (zz_verif/cloudctl): ECS assign calls answer (nil, err) on any error, Detach of a missing interface and UnAssign of missing addresses succeed, "
